@@ -249,8 +249,9 @@ func ruleSCVarProtection() check.Rule {
 								continue
 							}
 							common := false
-							for k := range a.held {
-								if b.held[k] {
+							ah, bh := lockset.Effective(a.held, a.write), lockset.Effective(b.held, b.write)
+							for k := range ah {
+								if bh[k] {
 									common = true
 								}
 							}
@@ -598,6 +599,51 @@ func ruleAtomicPointeeImmutable() check.Rule {
 						}
 						return true
 					})
+					// what is published must be a fresh value: the address of long-lived storage (a field, an element of a
+					// preallocated array, a captured variable) is written again on the next publication while readers that loaded
+					// it are still copying it
+					for i, st := range stores {
+						if len(st.Args) != 1 {
+							continue
+						}
+						arg := ast.Unparen(st.Args[0])
+						// follow one local pointer variable (slot := &l.slots[i]; cell.Store(slot))
+						if id, ok := arg.(*ast.Ident); ok {
+							if v, isVar := info.Uses[id].(*types.Var); isVar {
+								for _, d := range m.Defs[v] {
+									if d.Expr != nil && d.Pos >= body.Pos() && d.Pos <= body.End() {
+										arg = ast.Unparen(d.Expr)
+									}
+								}
+							}
+						}
+						u, ok := arg.(*ast.UnaryExpr)
+						if !ok || u.Op != token.AND {
+							continue
+						}
+						root, steps := rootIdent(u.X)
+						if root == nil {
+							continue
+						}
+						rv, isVar := objOf(info, root).(*types.Var)
+						if !isVar {
+							continue
+						}
+						// &local declared in this very function (a parameter or a local: fresh per call) is fine
+						declaredHere := body.Pos() <= rv.Pos() && rv.Pos() <= body.End()
+						if ft := funcType(fn); ft != nil && ft.Params != nil && ft.Params.Pos() <= rv.Pos() && rv.Pos() <= ft.Params.End() {
+							declaredHere = true
+						}
+						if declaredHere && !steps {
+							continue
+						}
+						if _, isLit := ast.Unparen(u.X).(*ast.CompositeLit); isLit {
+							continue
+						}
+						n++
+						key := fmt.Sprintf("%s/atomic-publishes-storage#%d", chainKey(m, p, m.EnclosingFuncs(p, fn), scs), i+1)
+						c.Report(armed, key, st.Pos(), "the pointer published through this atomic cell is the address of long-lived storage (%s), not of a fresh value: the storage is overwritten by a later publication while a reader that loaded the pointer is still reading through it", types.ExprString(u.X))
+					}
 					for i, st := range stores {
 						sel := ast.Unparen(st.Fun).(*ast.SelectorExpr)
 						cell := cellOf(sel.X)
